@@ -515,7 +515,21 @@ theorem C12_python_node_sig_site (s₁ s₂ : ArgSite) (hm : s₁.modulePath = s
   have h := hashValue_resp sha (.tuple s₁.treePath) (.tuple s₂.treePath) hq
   simp only [sigPythonNode, sigOf, rawKey_python, nodeInfoOfArg, hm, ht, hp, h]
 
-/-- **sig (PythonNode without node info) is a constant** — why F41 merges all container-valued plain arguments. -/
+/-- **merged_arg_identity_full** (F41 repaired in 91d0d18; false before, when the node had no node info and its signature
+was a constant).  The node that stands for a plain container-valued argument is *the argument of that task*: two such
+nodes are one DAG node iff they belong to the same parameter of the same task of the same module. -/
+theorem C12_merged_arg_identity_full (hlen : ∀ b, (sha b).length = 64) (S : Bytes → Prop) (hS : InjOn sha S)
+    (s₁ s₂ : ArgSite)
+    (c₁ : SigCovers sha S Generated.sigPythonNodeFields (envNodeInfo ⟨s₁.param, [], s₁.taskName, s₁.modulePath⟩))
+    (c₂ : SigCovers sha S Generated.sigPythonNodeFields (envNodeInfo ⟨s₂.param, [], s₂.taskName, s₂.modulePath⟩)) :
+    sigPythonNode sha (nodeInfoOfMerged s₁) = sigPythonNode sha (nodeInfoOfMerged s₂) ↔
+      s₁.param = s₂.param ∧ s₁.taskName = s₂.taskName ∧ s₁.modulePath = s₂.modulePath := by
+  simp only [nodeInfoOfMerged]
+  rw [C12_sig_iff_pythonnode_hash sha hlen S hS _ _ c₁ c₂]
+  simp
+
+/-- **sig (PythonNode without node info) is a constant** — a node constructed by hand without `node_info` has no
+identity of its own; collection no longer produces such nodes (`mergedNodeInfoGen_eq` in HashTie). -/
 theorem C12_sig_pythonnode_noinfo_const :
     sigPythonNode sha none = sha (utf8 (decInt Generated.hashNoneConst)) := by
   simp [sigPythonNode, hashValue, HV.render]
